@@ -322,7 +322,9 @@ def log_cases(ctx, n, rng, nsample):
     ops = [o for o in LC.pty_ops([9, 19]) if o[1:] != ['WithExit', 0]]
     variants = [('logfile', 0), ('logfile_read', 0), ('logfile_send', 0), ('logfile', 1), ('logfile', None)]
     scen = PRIMARY + DEAD[:1]
-    for attr, pos in variants:
+    # (the longer enumeration of the thorough tier: the three attributes closed before the first operation; the
+    # other placements are in the enumeration one shorter and in the sampled histories)
+    for attr, pos in (variants if n <= 2 else variants[:3]):
         for disp, env, epos in scen:
             for sq in LC.sequences(ops, n):
                 items = list(sq)
@@ -337,7 +339,8 @@ def log_cases(ctx, n, rng, nsample):
         seqs = LC.sequences(LC.fd_ops(tr), n)
         for kind in kinds:
             for attr, pos in variants:
-                for penv in (None, ['env', 'peerclose', 0]) + ((['env', 'peerreset', 0],) if kind == 'tcp' else ()):
+                for penv in (None,) + ((['env', 'peerclose', 0],) + ((['env', 'peerreset', 0],) if kind == 'tcp' else ())
+                                       if pos == 0 else ()):
                     for sq in seqs:
                         items = list(sq)
                         if pos is not None:
@@ -367,8 +370,10 @@ def lowfd_cases(ctx, n):
     """fdspawn / SocketSpawn on a descriptor whose NUMBER is 0, 1 or 2 (a program running without that
     standard stream); executed in a helper process that gives up its own stream for it"""
     cases = []
-    for c in fd_enumeration(n):
-        for low in (0, 1, 2):
+    for k, c in enumerate(fd_enumeration(n)):
+        # every number for the histories that release the descriptor, one (rotating) for the others
+        releasing = any(it[1] in ('Close', 'WithExit') for it in c['items'])
+        for low in ((0, 1, 2) if releasing else (k % 3,)):
             d = dict(c)
             d.update(iso='lowfd', low=low, gen='lowfd-enum%d' % n)
             cases.append(d)
@@ -451,8 +456,9 @@ STEAL_SPACE = ('pty child whose status is collected by someone else {foreign wai
                'sequences of 2 operations after each history')
 LOG_SPACE = ('{logfile, logfile_read, logfile_send closed by the caller before the first operation | logfile closed before the '
              'second | logfile open throughout} x all sequences <= %d x {pty: 5 dispositions | pty master, socket fd, pipe | '
-             'socketpair, TCP: peer open / closed / reset}; one operation longer with the log closed at a random point: sampled')
-LOW_SPACE = 'wrapped descriptor number 0 / 1 / 2 x all sequences <= %d x the fd / socket kinds and peer actions of the plain enumeration'
+             'socketpair, TCP: peer open (closed / reset: with the log closed first)}; one operation longer with the log closed at a random point: sampled')
+LOW_SPACE = ('wrapped descriptor number 0 / 1 / 2 x all sequences <= %d with a close() / with-exit x the fd / socket kinds and peer '
+             'actions of the plain enumeration (the sequences that release nothing: one of the three numbers, rotating)')
 
 
 # --------------------------------------------------------------------------------------------
